@@ -1659,6 +1659,10 @@ def rule_fingerprint_recorded(ctx: Ctx, rid="C11.FINGERPRINT-RECORDED"):
 
 
 def rule_instance_only(ctx: Ctx, rid="C11.INSTANCE-ONLY"):
+    from . import liferules as LF
+    # what an observer sees: operations on a second evaluator leave the first one serving its own text
+    LF.decide(ctx, rid, ("isolated",), ok_text="abstract runs with two evaluators: building a second evaluator from another text, and "
+              "recompiling it, leave the first evaluator's attributes and the function it serves unchanged")
     m, c = _evaluator(ctx)
     cn = set(m.classes())
     mm = set(module_level_mutables(m))
@@ -1772,8 +1776,9 @@ def rule_installed_function(ctx: Ctx, rid="C11.INSTALLED-FUNCTION", strict=True,
     life = LF.lifecycle(ctx)
     decided = not life["undecided"]
     if decided and "installed" in facets:
-        LF.decide(ctx, rid, ("switched", "fed"), ok_text="the attribute a call reads holds the function that exec bound, under the experiment's "
-                  "name, from the text generated for THIS call's source (unwrapped); the same holds after the histories A,B,A and A,B,A,B")
+        LF.decide(ctx, rid, ("switched", "fed", "isolated"), ok_text="the attribute a call reads holds the function that exec bound, under the "
+                  "experiment's name, from the text generated for THIS call's source (unwrapped); the same holds after the histories A,B,A and "
+                  "A,B,A,B, and after a second evaluator was built from / recompiled to another text")
         facets = tuple(f_ for f_ in facets if f_ != "installed")
     if len(sites) != 1:
         if decided:
